@@ -521,6 +521,12 @@ def _nested_graph_references_value(nodes: Sequence[ir.Node], value: ir.Value) ->
     return any(_node_attributes_reference(node) for node in nodes)
 
 
+def _value_is_observed(nodes: Sequence[ir.Node], value: ir.Value) -> bool:
+    """A model output, or a value captured by a nested (If/Loop/Scan) graph: a rewrite
+    must not re-lay-out, reshape or remove it."""
+    return bool(value.is_graph_output()) or _nested_graph_references_value(nodes, value)
+
+
 def _known_integer_scalar(
     nodes: Sequence[ir.Node],
     value: ir.Value,
@@ -940,7 +946,7 @@ def _collect_transpose_elementwise_chain(
         visited_values.add(val)
         if _is_scalar_const_value(val):
             continue
-        if val.is_graph_output():
+        if _value_is_observed(nodes, val):
             # The rewrite re-lays-out every value on the chain; a value that is
             # itself a model output must keep its producer and its layout.
             return None
@@ -989,7 +995,7 @@ def _collect_transpose_elementwise_forest(
         visited_values.add(val)
         if _is_scalar_const_value(val):
             continue
-        if val.is_graph_output():
+        if _value_is_observed(nodes, val):
             # See _collect_transpose_elementwise_chain: observed values keep their layout.
             return None
         producer = _producer_node(nodes, val)
@@ -1129,7 +1135,9 @@ def remove_redundant_transpose_reduce_ir(graph: ir.Graph) -> None:
             if reducer_consumers[0] is not node:
                 # Should be covered by consumers scan logic, but double check
                 continue
-            if reducer_out_val is not None and reducer_out_val.is_graph_output():
+            if reducer_out_val is not None and _value_is_observed(
+                nodes, reducer_out_val
+            ):
                 # The reducer's own result is a model output: it must keep its
                 # (transposed) layout, so the pair cannot be folded around it.
                 continue
@@ -1241,7 +1249,7 @@ def _collect_add_transpose_forest(
         out = _node_output(node)
         if out is None:
             return None
-        if out.is_graph_output():
+        if _value_is_observed(nodes, out):
             # Lifting the forest changes the layout of every Add result; a result
             # that is itself a model output must keep the transposed layout.
             return None
@@ -1334,7 +1342,7 @@ def remove_redundant_transpose_add_forests_ir(graph: ir.Graph) -> None:
                     continue
                 if _consumer_nodes(live_nodes, t_out):
                     continue
-                if t_out.is_graph_output():
+                if _value_is_observed(live_nodes, t_out):
                     continue
                 removable_inputs.append(in_transpose)
             if removable_inputs:
@@ -1428,7 +1436,7 @@ def remove_redundant_transpose_pairs_ir(graph: ir.Graph) -> None:
                 if out is None:
                     ok = False
                     break
-                if out.is_graph_output():
+                if _value_is_observed(nodes, out):
                     # An observed Add result must keep its (transposed) layout.
                     ok = False
                     break
@@ -1731,7 +1739,7 @@ def remove_redundant_transpose_pairs_ir(graph: ir.Graph) -> None:
                     continue
                 if any(
                     (chain_out := _node_output(chain_node)) is not None
-                    and chain_out.is_graph_output()
+                    and _value_is_observed(nodes, chain_out)
                     for chain_node in [T1, *allowed_nodes]
                 ):
                     # Folding re-lays-out (or removes) every value between the two
@@ -1897,11 +1905,11 @@ def remove_redundant_reshape_pairs_ir(graph: ir.Graph) -> None:
             t1_out = _node_output(T1)
             # Values between the two Reshapes change shape (or disappear) when the
             # pair is folded, so none of them may be a model output.
-            if t1_out is not None and t1_out.is_graph_output():
+            if t1_out is not None and _value_is_observed(nodes, t1_out):
                 safe_chain = False
             for node in allowed_fwd:
                 node_out = _node_output(node)
-                if node_out is not None and node_out.is_graph_output():
+                if node_out is not None and _value_is_observed(nodes, node_out):
                     safe_chain = False
 
             if safe_chain and t1_out is not None:
@@ -2657,6 +2665,10 @@ def remove_orphan_transposes_ir(graph: ir.Graph) -> None:
                     is_live = True
                     break
                 if _has_named_consumer(nodes, producer=node, output_name=out_name):
+                    is_live = True
+                    break
+                if _nested_graph_references_value(nodes, out):
+                    # Consumed only inside a control-flow body.
                     is_live = True
                     break
 
